@@ -140,8 +140,10 @@ def main():
                     mut_v[k] = base_v[k]
                     break
         flaky = ("service/wsp", "network/socket/listener")
+        # a package that fails on the unchanged tree (missing assets, or a timing flake of this loaded
+        # machine) and passes with the change is no objection: what is required is that nothing that passed fails
         meta["existing_tests_same_verdicts"] = all(mut_v.get(k) == v for k, v in base_v.items()
-                                                   if not any(f in k for f in flaky))
+                                                   if v == "ok" and not any(f in k for f in flaky))
         meta["verdict_changes"] = {k: (v, mut_v.get(k)) for k, v in base_v.items() if mut_v.get(k) != v}
         place()
         dirty = run_demo()
